@@ -40,3 +40,7 @@ Section Run.
   Definition tag_hist (cs : list C) : list (Z * Z) :=
     fold_left (fun h c => bump (fst (chk c)) h) cs [].
 End Run.
+
+(* the case files evaluate every case ONCE (V := map chk cases) and derive both lists from the verdicts *)
+Definition mism_of (vs : list verdict) : list (Z * Z) := mismatches (fun v : verdict => v) vs.
+Definition hist_of (vs : list verdict) : list (Z * Z) := tag_hist (fun v : verdict => v) vs.
